@@ -16,8 +16,10 @@ CONSTANTS
   PqTimeTypes = {"ts_s", "ts_ms", "ts_us", "ts_ns", "int64", "int32", "int16", "uint64", "uint32", "float64", "float32", "string", "binary", "fsb", "int8", "date32"}
   PqNulls = {TRUE, FALSE}
   PqRanges = {"mid"}
-  Families = {"csv_cols", "csv_opts", "csv_wide", "pq_cols", "pq_time"}
+  Families = {"csv_cols", "csv_opts", "csv_wide", "pq_cols", "pq_groups", "pq_time"}
   PqFamCols = 1
+  PqGroups = {1}
+  PqBads = {"none"}
   U64Check = TRUE
   Emit = TRUE
 INVARIANTS Safety EmitInv
